@@ -16,6 +16,12 @@ Thorough tier: the same on the tty of a real tmux pane — tmux answers the quer
 Op `resize` (w, h): the pty's window size is changed (TIOCSWINSZ) and the object's reset() is called
    (RIS).  From that reset on, the terminal is a fresh specification terminal of the new size fed with
    the bytes written since; the model is stepped with the new size.
+Calls that RAISE (every argument-error path: conflicting left/right or up/down with the other axis absent / given / conflicting
+   too, `pos` with col/row, a put without rows / cols / image id alone and through send_command, print_placeholder with pos and
+   line feeds or an empty rectangle) are steps like any other: K compares the bytes they wrote and the position they leave with
+   `Tup.Trk.step` (which rejects before anything is written, except send_command whose graphics command precedes the put), F
+   compares the position the object claims afterwards with the terminal that received whatever the call wrote before raising;
+   the object is used further (relative moves, a forced-placeholder put, queries) and every later step is judged too.
 Failing sequences are delta-debugged to minimal ones before they are reported.
 """
 from __future__ import annotations
@@ -405,6 +411,9 @@ def eval_case(ctx: Ctx, case: dict, stats: bool = False):
                 ctx.count("op:" + op["op"])
                 ctx.count("err:" + err)
                 ctx.count(f"queries-in-call:{len(replies)}")
+                if err == "ValueError":
+                    ctx.count(f"raising-call:{op['op']}:position-" + ("known" if tracked is not None else "unknown")
+                              + (":wrote-bytes-before-raising" if data else ":wrote-nothing"))
                 if tracked is None:
                     ctx.count("tracked:None")
                 else:
@@ -776,6 +785,107 @@ def structured(w, h):
     return out
 
 
+def error_calls(w, h, ID=0x050203):
+    """Every argument-error path of the public calls, each as (label, op); every one of them must raise ValueError.
+    A conflicting pair on one axis comes with the OTHER axis absent / given either way / conflicting as well / zero, and with
+    zero and negative values in the pair itself; `pos` comes with col, row and both; a put comes without rows / cols / both /
+    image id (alone and through send_command, where the graphics command itself is written before the rejection)."""
+    E = []
+    pairs = [(1, 1), (2, 3), (0, 0), (3, 0), (0, 2), (-1, 1)]
+    for i, (a, b) in enumerate(pairs):
+        for j, other in enumerate([{}, {"right": 2}, {"left": 1}, {"left": 1, "right": 2}, {"right": 0}, {"left": -1}]):
+            if (i + j) % 2 and i >= 2 and j >= 1:
+                continue
+            E.append(("mv:up+down" + ("+" + "+".join(sorted(other)) if other else ""), dict({"op": "mv", "up": a, "down": b}, **other)))
+        for j, other in enumerate([{}, {"down": 3}, {"up": 1}, {"up": 2, "down": 1}, {"down": 0}, {"up": -2}]):
+            if (i + j) % 2 and i >= 2 and j >= 1:
+                continue
+            E.append(("mv:left+right" + ("+" + "+".join(sorted(other)) if other else ""), dict({"op": "mv", "left": a, "right": b}, **other)))
+    c1, r1 = min(1, w - 1), min(1, h - 1)
+    for pos in ([0, 0], [c1, r1], [w - 1, h - 1]):
+        E.append(("mva:pos+col", {"op": "mva", "pos": pos, "col": c1}))
+        E.append(("mva:pos+row", {"op": "mva", "pos": pos, "row": 0}))
+        E.append(("mva:pos+col+row", {"op": "mva", "pos": pos, "col": 0, "row": r1}))
+    for C in (None, True):
+        E.append(("put:no-rows", {"op": "put", "id": ID, "pid": 0, "rows": None, "cols": 2, "C": C}))
+        E.append(("put:no-cols", {"op": "put", "id": ID, "pid": 0, "rows": 2, "cols": None, "C": C}))
+        E.append(("put:no-rows-no-cols", {"op": "put", "id": ID, "pid": 0, "rows": None, "cols": None, "C": C}))
+        E.append(("put:no-image-id", {"op": "put", "id": None, "pid": 0, "rows": 1, "cols": 2, "C": C}))
+    for kind in ("put", "transmit"):
+        for rows, cols in ((None, 2), (2, None)):
+            E.append((f"send-{kind}:no-" + ("rows" if rows is None else "cols"),
+                      {"op": "send", "kind": kind, "virtual": None, "force": True, "id": ID, "pid": None, "rand": 4242, "rows": rows, "cols": cols,
+                       "C": None}))
+    ph = {"op": "ph", "id": ID, "pid": 0, "sc": 0, "sr": 0, "ec": min(2, w), "er": min(2, h), "pos": None, "save": True, "lf": False,
+          "mode": "default", "fmt": None}
+    E.append(("ph:pos+linefeeds", dict(ph, pos=[c1, r1], lf=True)))
+    E.append(("ph:pos+linefeeds+formatting", dict(ph, pos=[0, 0], lf=True, fmt=b"\x1b[1m".hex())))
+    for style in (dict(), dict(save=False), dict(lf=True), dict(pos=[c1, r1])):
+        E.append(("ph:empty-rectangle", dict(ph, ec=0, **style)))
+    return E
+
+
+def structured_errors(w, h):
+    """A call that RAISES must leave the object right about the terminal: whatever it wrote before it raised counts as written.
+    Histories on one object: the position is made known, then groups of [erroring call, ordinary relative move, re-anchoring]
+    (each step is judged), ended by calls that USE the tracked position (a forced-placeholder put clipped against it, a query
+    of the tracked position, one more relative move).  Three object states: position known; position known with the
+    scroll-margin flag raised (write(), then a query); position unknown."""
+    out = []
+    mid_c, mid_r = min(3, w - 1), min(2, h - 1)
+    E = error_calls(w, h)
+    follow = [{"op": "mv", "right": 1, "down": 1}, {"op": "mv", "left": 1, "up": 1}, {"op": "mv", "right": 1}, {"op": "mv", "down": 1},
+              {"op": "getposT"}, {"op": "mv", "up": 1}]
+    tail = [{"op": "put", "id": 0x060203, "pid": 0, "rows": 2, "cols": 2, "C": None}, {"op": "getposT"}, {"op": "mv", "left": 1, "up": 1}]
+    anchor = {"op": "mva", "col": mid_c, "row": mid_r}
+    per = 6
+    for g in range(0, len(E), per):
+        ops = [{"op": "reset", "rbs": False}, anchor]
+        for k, (label, e) in enumerate(E[g:g + per]):
+            ops += [e, follow[(g + k) % len(follow)], anchor]
+        out.append({"w": w, "h": h, "name": "error-paths", "ops": ops + tail})
+    # the scroll-margin flag raised (write), the position known again (query): vertical moves then forget the position
+    mv = [x for x in E if x[0].startswith(("mv:", "mva:"))]
+    for g in range(0, len(mv), 2 * per):
+        ops = [{"op": "reset", "rbs": False}, {"op": "write", "hex": b"ab".hex()}, {"op": "getpos"}]
+        for k, (label, e) in enumerate(mv[g:g + 2 * per:2]):
+            ops += [e, follow[(2 + 2 * k) % len(follow)], {"op": "getpos"}]
+        out.append({"w": w, "h": h, "name": "error-paths-margin-flag", "ops": ops + tail})
+    # position unknown: nothing is claimed, but the bytes of an erroring call are still compared with the model
+    ops = [{"op": "write", "hex": b"ab".hex()}]
+    for k, (label, e) in enumerate(E[1::7]):
+        ops += [e, follow[k % 4]]
+    out.append({"w": w, "h": h, "name": "error-paths-untracked", "ops": ops + [{"op": "getposT"}, E[3][1], {"op": "mv", "right": 1}]})
+    return out
+
+
+def random_errors(rng):
+    """a random history in which about every third call is one of the erroring calls (random arguments)"""
+    w, h = rng.choice(SIZES)
+    E = error_calls(w, h)
+    V = [0, 1, 1, 2, 3, h - 1, h, w, -1, -2]
+    ops = []
+    if rng.random() < 0.7:
+        ops.append({"op": "reset", "rbs": rng.random() < 0.3})
+    for k in range(rng.choice([4, 8, 16, 30])):
+        r = rng.random()
+        if r < 0.3:
+            e = dict(rng.choice(E)[1])
+            if e["op"] == "mv":
+                for n in ("right", "down", "left", "up"):
+                    if n in e and rng.random() < 0.7:
+                        e[n] = rng.choice(V)
+            ops.append(e)
+        elif r < 0.45:
+            ops.append(rng.choice([{"op": "mva", "col": rng.randrange(w), "row": rng.randrange(h)}, {"op": "getpos"}, {"op": "getposT"}]))
+        else:
+            ops.append(gen_op(rng, w, h, k))
+    case = {"w": w, "h": h, "name": "random-errors", "force": rng.random() < 0.3, "ops": ops[:60]}
+    if rng.random() < 0.2:
+        case["buffered"] = True
+    return case
+
+
 RESIZE_PAIRS = [((20, 10), (40, 20)), ((40, 20), (20, 10)), ((80, 24), (10, 5)), ((10, 5), (80, 24)), ((2, 2), (1, 1)), ((1, 1), (3, 300)),
                 ((300, 3), (3, 300)), ((3, 300), (300, 3)), ((80, 24), (80, 24)), ((80, 24), (100, 24)), ((80, 24), (80, 30)),
                 ((80, 24), (60, 30))]
@@ -858,8 +968,11 @@ def cases(ctx: Ctx):
     # on a fixed size are the same as before these were added
     import random as _random
     rrng = _random.Random(ctx.seed * 1000003 + 16)
+    erng = _random.Random(ctx.seed * 1000003 + 1616)
     for (w, h) in SIZES:
         for c in structured(w, h):
+            yield c
+        for c in structured_errors(w, h):
             yield c
     for c in structured_resize():
         yield c
@@ -875,6 +988,8 @@ def cases(ctx: Ctx):
         n_random += 1
         if n_random % 4 == 0:
             yield random_resize(rrng)
+        if n_random % 5 == 0:
+            yield random_errors(erng)
         w, h = rng.choice(SIZES)
         n = rng.choice([3, 6, 12, 25, 40, 60])
         ops = [gen_op(rng, w, h, k) for k in range(n)]
@@ -888,11 +1003,16 @@ def run(ctx: Ctx):
     ctx.rule = ("a case is a history of <= 60 public calls on one terminal size from {1x1,2x2,80x24,300x3,3x300,10x5}: structured histories "
                 "per mechanism (absolute moves to 0 / beyond the edges, relative moves past every edge and with negative/zero/conflicting "
                 "arguments, placeholder styles, margins set by set_margins and by write, pending-wrap queries, clears, scrolls, both "
-                "resets, every branch of the forced-placeholder put at 6 cursor positions x 9 sizes x C, send_command variants), histories "
+                "resets, every branch of the forced-placeholder put at 6 cursor positions x 9 sizes x C, send_command variants), histories of "
+                "RAISING calls on one object (every argument-error path: up+down / left+right with 6 value pairs incl. zero and negative x the "
+                "other axis absent, given either way, conflicting too, zero; pos with col / row / both; put without rows / cols / both / image "
+                "id, alone and through send_command; print_placeholder with pos+line feeds or an empty rectangle) each followed by an ordinary "
+                "move and a re-anchoring, in three object states (position known, known with the scroll-margin flag raised, unknown), ended by "
+                "a forced-placeholder put and a tracked query; histories "
                 "in which the window is RESIZED between calls (op resize = TIOCSWINSZ then reset(): 12 size pairs grow/shrink/mixed/same x "
                 "absolute and relative moves to the old and new corners, first use of the size after the resize, resizing back, "
                 "pending-wrap queries, reset by scrolling, forced-placeholder puts clipped at the new edges, buffered display), followed by "
-                "random histories (every 4th with 1..4 resizes between segments); distinct = canonical JSON; non-trivial = the history leaves the position known after at least one call")
+                "random histories (every 4th with 1..4 resizes between segments, every 5th with about a third of its calls raising); distinct = canonical JSON; non-trivial = the history leaves the position known after at least one call")
     budget = 105 if ctx.quick else 330
     if CORPUS.is_dir():
         for f in sorted(CORPUS.glob("*.json")):
